@@ -34,7 +34,8 @@ MANIFEST = {
     "text": "Bounded symbolic, partial: with/without-U and permuted-order relations decided by CrossHair for every "
             "configuration of the bounded grammars; the matching heuristic by z3 (C11's query).",
     "note": "Trusted: CrossHair/z3, shim (validated), in-memory FS. Not applicable: cross-module effects inside mypy. "
-            "Known findings: same-name / suffix decoys for unqualified references, alias shadowing, forward references.",
+            "Known findings: same-name / suffix decoys for unqualified references, alias shadowing, forward references. "
+            "Visitor state between declarations is observed on real mypy trees of a fixed corpus.",
     "technique": "CrossHair symbolic execution, two-run relational oracle (stub(M) with U == stub(M) without U; walk(pi M) == pi walk(M))",
 }
 
